@@ -17,7 +17,7 @@ FunctionOutputs(declared, row) == IF declared = <<"undeclared">> \/ declared = r
 PolyUse(nparams, ntypeargs, instGiven) ==
   IF nparams = 0 THEN "ok" ELSE IF ~instGiven \/ nparams # ntypeargs THEN "NoConcreteFunc" ELSE "ok"
 CallTarget(kind) == IF kind \in {"FuncDefn", "FuncDecl"} THEN "ok" ELSE "Error"            \* a non-function used as one (any exception)
-WireSource(portKind) == IF portKind = "Value" THEN "ok" ELSE "ValueError"                  \* a non-dataflow port used as a wire
+WireSource(portKind) == IF portKind = "Value" THEN "ok" ELSE "Error"                       \* a non-dataflow port used as a wire (undocumented: any exception)
 (* ---- integer wire indices ---- *)
 IntArg(tracking, isTracked) == IF ~tracking THEN "ValueError" ELSE IF isTracked THEN "ok" ELSE "IndexError"
 
